@@ -11,6 +11,10 @@ Post = snapshot + per-receiver deliveries; Unsubscribe = del + close).
   T      : randomised concurrent workloads (posters, unsubscribers, Stop, blocking
            readers) are logged and validated by TraceEvent.tla, which searches for
            a placement of the silent internal steps that explains every result.
+  storm  : long concurrent runs (6-11 subscribers of one type, 2-3 posters x 30-59 posts, 2-4
+           subscribers from the middle of the list unsubscribing meanwhile); TLC evaluates
+           EventStorm.tla (what OnlyDueOnce / InOrder / ExactlyDue say about a whole reception)
+           over every run.
 """
 import copy
 import json
@@ -58,6 +62,39 @@ def run(ctx):
             ctx.violation("conc:%s:%s" % (ev and ev["ev"], ev and (ev["op"] or ev["r"])),
                           "concurrent execution not explained by Event.tla: event %d %s cannot follow the validated prefix"
                           % (k, json.dumps(ev)), {"mode": "conc", "trace": tr, "rejected_event": k})
+    # ---- storm: long runs with many subscribers of one type, judged by EventStorm.tla (whole receptions)
+    nst = 40 if quick else 400
+    sfile = os.path.join(ctx.work, "storm.ndjson")
+    h4 = ctx.harness([b, "storm", str(nst), sfile], timeout=1500)
+    runs = [json.loads(l) for l in open(sfile)]
+    if len(runs) < nst // 2 and not h4["violations"]:
+        raise Infra("storm produced %d of %d runs" % (len(runs), nst))
+    def judge(rs, tag):
+        rr = ctx.tlc("periph/EventStorm", "cfg/EventStorm.cfg", workers=1, timeout=1200, tag=tag,
+                     files={"storm.ndjson": "".join(json.dumps(x) + "\n" for x in rs)})
+        docs = list(rr.exports())
+        if rr.error or len(docs) != 1 or docs[0].get("runs") != len(rs):
+            raise Infra("EventStorm.tla did not evaluate the runs: %s %s" % (rr.error, rr.out[-800:]))
+        return docs[0]["bad"]
+    for bad in judge(runs, "storm"):
+        rn = runs[bad["run"] - 1]
+        k = bad["subs"][0] - 1
+        ids = rn["subs"][k]["ids"]
+        dup = sorted({x for x in ids if ids.count(x) > 1})
+        ctx.violation("storm:%s" % ("duplicate" if dup else ("lost" if rn["subs"][k]["stable"] else "order")),
+                      "concurrent run with %d subscribers of one type and %d posters: subscriber %d (%s) received %d events for %d posted; "
+                      "duplicates %s; EventStorm.tla (OnlyDueOnce / InOrder / ExactlyDue of Event.tla) rejects the reception"
+                      % (len(rn["subs"]), len(rn["posted"]), k + 1, "subscribed throughout" if rn["subs"][k]["stable"] else "unsubscribed meanwhile",
+                         len(ids), sum(len(p) for p in rn["posted"]), dup[:6]),
+                      {"mode": "storm", "run": rn, "subscriber": k + 1})
+    # negative control for the storm judge: a duplicated reception must be rejected
+    if runs:
+        c2 = copy.deepcopy(runs[0])
+        tgt = [k for k, x in enumerate(c2["subs"]) if x["ids"]]
+        if tgt:
+            c2["subs"][tgt[0]]["ids"].append(c2["subs"][tgt[0]]["ids"][0])
+            if not judge([c2], "storm-negative-control"):
+                raise Infra("negative control: a duplicated reception was accepted by EventStorm.tla")
     # ---- negative control: a corrupted trace must be rejected (binding is live)
     ctl = None
     for tr in traces:
@@ -82,6 +119,7 @@ def run(ctx):
         seq_distinct_call_shapes=h1["summary"]["distinct"],
         full_queue_paths_replayed=h2["summary"]["cases"],
         concurrent_traces=len(traces), concurrent_events=h3["summary"].get("events"),
+        storm=h4["summary"],
         negative_control="corrupted recv id rejected" if ctl is not None else "none available",
         exhaustive=True,
         rule="R: every transition of the bounded sequential model (2 subs, 2 types, <=%d posts, <=%d recv) with its path; "
